@@ -8,3 +8,5 @@ package soyjs
 //@   props C13
 //@   nosafety
 //@   modifies *
+//@   loop 0
+//@     bag new
